@@ -208,6 +208,13 @@ def run_glue(case):
     except TextXSemanticError as e:
         out["r"] = "SEM-ERR"
         out["msg"] = str(e)[:200]
+        # which Ref object the error is about (the model text is a single line)
+        off = (e.col or 0) - 1
+        out["err_ref"] = None
+        if "Unknown object" in str(e) and e.line == 1:
+            for i, po in enumerate(pobjs):
+                if po.__class__.__name__ == "Ref" and po._tx_position <= off < po._tx_position_end:
+                    out["err_ref"] = i
         return out
     except TextXSyntaxError as e:
         out["r"] = "SYN-ERR:" + str(e)[:200]
